@@ -1,11 +1,16 @@
 (* Properties_C19.v — C19 "pluggable memory manager: balanced use, allocation failure is survivable":
    theorems about the allocation-ledger model (MemDefs.v) of XalanVector, XalanList and ArenaAllocator, for the
-   code with the repairs of K8 (no allocation inside destructors), K23 and K-new-4.
+   code with the repairs of K8 (no allocation inside destructors), K23 and K-new-4.  The two allocation-failure sites of
+   K-new-1 (ArenaAllocator::allocateBlock) and K-new-2 (XalanMap::doCreateEntry, XalanMap copy constructor) are
+   parameters of the model: a boolean per site says whether the new block is released when the list node for it is
+   refused.  The theorems are stated for both values where they hold for both, `..._safe` is the full guarantee for the
+   repaired shape, `..._refuted` / `..._partial` are about the shape as found, and `..._this_tree` is the statement at
+   the values GenMem.v (regenerated from /repo on every run) gives these booleans.
    The heap is the manager's table: [live] = outstanding blocks with the manager that handed them out,
    [bad] = a deallocate of a block not outstanding in that manager happened (foreign or double free),
    [fuse] = failure injection (Some k: the allocation after k successful ones is refused, once). *)
 From Coq Require Import List Arith Bool Lia Permutation.
-Require Import XV.GenCont XV.GenMem XV.MemDefs XV.MemModel XV.MemListModel XV.MemArenaModel XV.MemMapDefs XV.MemMapModel.
+Require Import XV.GenCont XV.GenMem XV.MemDefs XV.MemModel XV.MemListModel XV.MemArenaModel XV.MemMapDefs XV.MemMapModel XV.MemMapLedger.
 Import ListNotations.
 
 (* the shapes of the source that the model follows (regenerated from /repo on every run) *)
@@ -118,59 +123,89 @@ Example list_empty_does_not_allocate :
   lstep (LClear false) lworld0 (heap0 None) = (heap0 None, lworld0, true).
 Proof. split; reflexivity. Qed.
 
-(* ---------------- ArenaAllocator<Obj, ArenaBlock<Obj>> *)
+(* ---------------- ArenaAllocator<Obj, ArenaBlock<Obj>> ; [g]: allocateBlock() destroys the new block when the block
+   list refuses the node for it (K-new-1 repaired) *)
 
-(* without a refusal: every history followed by the destructor is balanced *)
-Theorem arena_ledger_balanced : forall (ops : list aop) (bs : nat) a h h1 a1 ok,
-  run _ _ astep ops (arena0 0 bs) (heap0 None) = (a, h) -> arena_dtor a h = (h1, a1, ok) ->
+(* without a refusal: every history followed by the destructor is balanced, for both shapes *)
+Theorem arena_ledger_balanced : forall (g : bool) (ops : list aop) (bs : nat) a h h1 a1 ok,
+  run _ _ (astep g) ops (arena0 0 bs) (heap0 None) = (a, h) -> arena_dtor a h = (h1, a1, ok) ->
   ok = true /\ live h1 = [] /\ bad h1 = false.
 Proof.
-  intros ops bs a h h1 a1 ok R D.
-  destruct (arun_inv _ _ _ _ _ (ainv0 0 bs None) R) as [V FZ].
+  intros g ops bs a h h1 a1 ok R D.
+  destruct (arun_inv _ _ _ _ _ _ (ainv0 0 bs None) R) as [V [FZ _]].
   destruct (FZ eq_refl) as [LK F1]. cbn in LK.
   destruct (arena_dtor_spec _ _ _ _ _ V D) as [OK [P [B _]]]. rewrite LK in P.
   split; auto. split; auto. apply Permutation_nil. apply Permutation_sym. exact P.
 Qed.
 Print Assumptions arena_ledger_balanced.
 
-(* alloc_failure_safe, full statement ("destruction balances the ledger after a refusal"): REFUTED (K-new-1).
-   allocateBlock() does  m_blocks.push_back(ArenaBlockType::create(...)) : when the head node or the list node
-   cannot be allocated the freshly created block (its struct and its storage) is lost *)
+(* alloc_failure_safe, the FULL statement, for the repaired allocateBlock(): every history of operations with the
+   refusal of any single allocation anywhere in it (f = Some k, any k; or none), then the destructor: no foreign or
+   double free ever; a refused operation leaves the objects of the arena exactly as they were (strong guarantee on the
+   logical contents); the destructor completes and NOTHING is outstanding afterwards - every block obtained from the
+   manager was either still owned by the allocator (and released by ~ArenaAllocator) or returned on the failure path *)
+Theorem arena_alloc_failure_safe : forall (ops : list aop) (f : option nat) (bs : nat) a h,
+  run _ _ (astep true) ops (arena0 0 bs) (heap0 f) = (a, h) ->
+  bad h = false /\
+  (forall op h1 a1, astep true op a h = (h1, a1, false) -> aobjs a1 = aobjs a /\ bad h1 = false) /\
+  (forall h1 a1 ok, arena_dtor a h = (h1, a1, ok) -> ok = true /\ live h1 = [] /\ bad h1 = false).
+Proof. exact arena_safe_guarded. Qed.
+Print Assumptions arena_alloc_failure_safe.
+
+(* the refusals the theorem talks about do happen, and in the places that used to lose the block: growing past the first
+   block (block size 2, third object) with the list node refused - the new block's storage and struct go back *)
+Example arena_refusal_repaired :
+  (let '(t, a, h) := run_trace _ _ (astep true) aobs [ANew 8; ANew 8; ANew 8] (arena0 0 2) (heap0 (Some 8)) in
+   map (fun s => fst (fst s)) t = [true; true; false] /\ aobs a = [2] /\
+   rev (log h) = [EAlloc 0 TAG_ABLK 1 6; EAlloc 0 TAG_ASTORE 2 7; EThrow; EFree 0 7; EFree 0 6]) /\
+  map (fun k => r_outstanding (arena_case_g true (Some k) 2 [ANew 8; ANew 8; ANew 8])) (seq 0 14) = repeat 0 14.
+Proof. split; vm_compute; auto. Qed.
+
+(* the same statement for allocateBlock() as found - m_blocks.push_back(ArenaBlockType::create(...)) - is REFUTED
+   (K-new-1): when the head node or the list node cannot be allocated the freshly created block (its struct and its
+   storage) is lost *)
 Theorem arena_alloc_failure_safe_refuted :
-  (exists f bs ops, r_dtor_ok (arena_case f bs ops) = true /\ r_outstanding (arena_case f bs ops) = 2 /\
-                    r_bad (arena_case f bs ops) = false) /\
-  r_outstanding (arena_case (Some 2) 2 [ANew 8]) = 2.
+  (exists f bs ops, r_dtor_ok (arena_case_g false f bs ops) = true /\ r_outstanding (arena_case_g false f bs ops) = 2 /\
+                    r_bad (arena_case_g false f bs ops) = false) /\
+  r_outstanding (arena_case_g false (Some 2) 2 [ANew 8]) = 2 /\
+  r_outstanding (arena_case_g false (Some 8) 2 [ANew 8; ANew 8; ANew 8]) = 2.
 Proof. split; [exists (Some 3), 2, [ANew 8]|]; vm_compute; auto. Qed.
 Print Assumptions arena_alloc_failure_safe_refuted.
 
-(* what does hold with refusals anywhere: no foreign / double free ever; every step leaks nothing or exactly the
-   two blocks of one ArenaBlock, and only a refused step can leak; the destructor always completes and what is
-   then outstanding is exactly the leaked blocks *)
-Theorem arena_alloc_failure_safe_partial : forall (ops : list aop) (f : option nat) (bs : nat) a h,
-  run _ _ astep ops (arena0 0 bs) (heap0 f) = (a, h) ->
+(* what does hold for both shapes with refusals anywhere: no foreign / double free ever; every step leaks nothing or
+   exactly the two blocks of one ArenaBlock, and only a refused step can leak; a refused step leaves the objects as they
+   were; the destructor always completes and what is then outstanding is exactly the leaked blocks *)
+Theorem arena_alloc_failure_safe_partial : forall (g : bool) (ops : list aop) (f : option nat) (bs : nat) a h,
+  run _ _ (astep g) ops (arena0 0 bs) (heap0 f) = (a, h) ->
   bad h = false /\
-  (forall op h1 a1 ok, astep op a h = (h1, a1, ok) ->
-     bad h1 = false /\ leak_step a a1 /\ (ok = true -> aleak a1 = aleak a)) /\
+  (forall op h1 a1 ok, astep g op a h = (h1, a1, ok) ->
+     bad h1 = false /\ leak_step a a1 /\ (ok = true -> aleak a1 = aleak a) /\ (ok = false -> aobjs a1 = aobjs a)) /\
   (forall h1 a1 ok, arena_dtor a h = (h1, a1, ok) -> ok = true /\ Permutation (live h1) (aleak a) /\ bad h1 = false).
 Proof.
-  intros ops f bs a h R.
-  destruct (arun_inv _ _ _ _ _ (ainv0 0 bs f) R) as [V _].
+  intros g ops f bs a h R.
+  destruct (arun_inv _ _ _ _ _ _ (ainv0 0 bs f) R) as [V _].
   split; [apply V|]. split.
-  - intros op h1 a1 ok S. destruct (astep_inv _ _ _ _ _ _ V S) as [V1 [_ [LS [OK _]]]].
+  - intros op h1 a1 ok S. destruct (astep_inv _ _ _ _ _ _ _ V S) as [V1 [_ [LS [OK [_ [_ NB]]]]]].
     split; [apply V1|]. auto.
   - intros h1 a1 ok D. destruct (arena_dtor_spec _ _ _ _ _ V D) as [OK [P [B _]]]. auto.
 Qed.
 Print Assumptions arena_alloc_failure_safe_partial.
 
-(* dtor_never_allocates, now a full theorem (it was refuted before the K8 repair: reset() called begin() on a
-   block list that was never used): in every reachable state, whatever was refused before, ~ArenaAllocator
+(* the statement at the shape of allocateBlock() in this tree (GenMem.arena_block_guarded): the full guarantee when the
+   translator found the repaired shape, the partial one when it found the shape of K-new-1 *)
+Theorem arena_alloc_failure_safe_this_tree : arena_safe_at arena_block_guarded.
+Proof. exact (arena_safe_any arena_block_guarded). Qed.
+Print Assumptions arena_alloc_failure_safe_this_tree.
+
+(* dtor_never_allocates, a full theorem for both shapes (it was refuted before the K8 repair: reset() called begin() on
+   a block list that was never used): in every reachable state, whatever was refused before, ~ArenaAllocator
    completes without calling the manager's allocate *)
-Theorem arena_dtor_never_allocates : forall (ops : list aop) (f : option nat) (bs : nat) a h h1 a1 ok,
-  run _ _ astep ops (arena0 0 bs) (heap0 f) = (a, h) ->
+Theorem arena_dtor_never_allocates : forall (g : bool) (ops : list aop) (f : option nat) (bs : nat) a h h1 a1 ok,
+  run _ _ (astep g) ops (arena0 0 bs) (heap0 f) = (a, h) ->
   arena_dtor a h = (h1, a1, ok) -> ok = true /\ next h1 = next h /\ fuse h1 = fuse h.
 Proof.
-  intros ops f bs a h h1 a1 ok R D.
-  destruct (arun_inv _ _ _ _ _ (ainv0 0 bs f) R) as [V _].
+  intros g ops f bs a h h1 a1 ok R D.
+  destruct (arun_inv _ _ _ _ _ _ (ainv0 0 bs f) R) as [V _].
   destruct (arena_dtor_spec _ _ _ _ _ V D) as [OK [_ [_ X]]]. auto.
 Qed.
 Print Assumptions arena_dtor_never_allocates.
@@ -180,20 +215,18 @@ Example arena_dtor_unused :
   arena_dtor (arena0 0 4) (heap0 (Some 0)) = (heap0 (Some 0), arena0 0 4, true).
 Proof. reflexivity. Qed.
 
-(* ---------------- XalanMap (ledger model tied by correspondence; one general theorem, the rest witnesses) *)
+(* ---------------- XalanMap (two maps on two managers: insert / erase / clear / operator= / swap); [ge]: doCreateEntry
+   releases the value block when the free list refuses the node for it, [gc]: the copy constructor releases the entries
+   copied so far when an insert throws (K-new-2 repaired, parts 1 and 2) *)
 
-(* dtor_never_allocates for XalanMap, a full theorem with the K8 repair: in every state reachable by insert / erase /
-   clear / operator= / swap on two maps, with a refusal anywhere, ~XalanMap (on any heap) completes and never calls
-   the manager's allocate - because whenever the map has an entry, live or free, the free-entries list has its head
-   node (invariant mheads_ok), and m_freeEntries.begin() is only reached for a non-empty free list *)
-Theorem map_dtor_never_allocates : forall (ops : list mop) (f : option nat) (minb thr : nat) w h (i : bool) h' h1 ok,
-  run _ _ mstep ops (map0 0 minb thr, map0 1 minb thr) (heap0 f) = (w, h) ->
+(* dtor_never_allocates for XalanMap, a full theorem for all shapes with the K8 repair: in every state reachable by
+   insert / erase / clear / operator= / swap on two maps, with a refusal anywhere, ~XalanMap (on any heap) completes
+   and never calls the manager's allocate - because whenever the map has an entry, live or free, the free-entries list
+   has its head node (invariant mheads_ok), and m_freeEntries.begin() is only reached for a non-empty free list *)
+Theorem map_dtor_never_allocates : forall (ge gc : bool) (ops : list mop) (f : option nat) (minb thr : nat) w h (i : bool) h' h1 ok,
+  run _ _ (mstep ge gc) ops (map0 0 minb thr, map0 1 minb thr) (heap0 f) = (w, h) ->
   map_dtor (sel i w) h' = (h1, ok) -> ok = true /\ next h1 = next h' /\ fuse h1 = fuse h'.
-Proof.
-  intros ops f minb thr w h i h' h1 ok R D.
-  pose proof (mrun_heads _ _ _ _ _ (mheads20 minb thr) R) as W.
-  eapply map_dtor_no_alloc; [apply mheads2_sel; exact W | exact D].
-Qed.
+Proof. exact map_dtor_any. Qed.
 Print Assumptions map_dtor_never_allocates.
 
 (* regression of the K8 witness: the copy of an empty map (one bucket, free list never used) *)
@@ -202,19 +235,57 @@ Example map_dtor_copy_of_empty :
   r_dtor_ok (map_case (Some 2) 3 3 [MAssign true]) = true.
 Proof. split; vm_compute; reflexivity. Qed.
 
-(* alloc_failure_safe for XalanMap, "destruction balances the ledger after a refusal": still refuted (K-new-2):
-   doCreateEntry does m_freeEntries.push_back(Entry(allocate(1))): the value block is lost when the head node or
-   the entry node of the free list cannot be allocated *)
+(* alloc_failure_safe for XalanMap, the FULL statement, for the repaired doCreateEntry() and copy constructor: every
+   history of operations on the two maps (at least one bucket to start with, as the class requires) with the refusal of
+   any single allocation anywhere in it, then both destructors: no foreign or double free ever; a refused insert or
+   operator= leaves the entries (keys, in order) and size() of both maps exactly as they were (a refused erase is the
+   compaction of the buckets running out of memory after the entry was erased: basic guarantee only); both destructors
+   complete and NOTHING is outstanding afterwards: bucket table, bucket storage, head nodes, entry nodes and value
+   blocks of both maps were all either still owned and released by ~XalanMap, or returned on the failure path
+   (the ownership invariant minv2 of MemMapLedger.v, over rehash, compactBuckets, copy construction and swap) *)
+Theorem map_alloc_failure_safe : forall (ops : list mop) (f : option nat) (minb thr : nat) w h, 0 < minb ->
+  run _ _ (mstep true true) ops (map0 0 minb thr, map0 1 minb thr) (heap0 f) = (w, h) ->
+  bad h = false /\
+  (forall op h1 w1, mstep true true op w h = (h1, w1, false) ->
+     bad h1 = false /\ (is_erase op = false -> mlog2 w1 = mlog2 w)) /\
+  (forall h1 ok1 h2 ok2, map_dtor (fst w) h = (h1, ok1) -> map_dtor (snd w) h1 = (h2, ok2) ->
+     ok1 = true /\ ok2 = true /\ live h2 = [] /\ bad h2 = false).
+Proof. exact map_safe_guarded. Qed.
+Print Assumptions map_alloc_failure_safe.
+
+(* the refusals do happen in the places that used to lose blocks: the node of the free list (fuse 3, 4), a copy that
+   fails after one / three entries (fuse 17, 23: operator= past a rehash of the temporary), and nothing is outstanding
+   for any of the first 30 allocation indices of that history *)
+Example map_refusal_repaired :
+  map (fun k => r_outstanding (map_case_g true true (Some k) 3 3 [MInsert false 1; MInsert false 2])) [3; 4] = [0; 0] /\
+  map (fun k => r_outstanding (map_case_g true true (Some k) 3 3 [MInsert true 1; MInsert true 2; MInsert true 3; MAssign false]))
+      (seq 0 30) = repeat 0 30 /\
+  (let '(h, w, ok) := mstep true true (MInsert false 2) (fst (run _ _ (mstep true true) [MInsert false 1] (map0 0 3 3, map0 1 3 3) (heap0 None)))
+                                       (mkheap 6 [] (Some 0) false []) in ok = false).
+Proof. split; [|split]; vm_compute; reflexivity. Qed.
+
+(* the same statement for the code as found is REFUTED (K-new-2): doCreateEntry does
+   m_freeEntries.push_back(Entry(allocate(1))): the value block is lost when the head node or the entry node of the free
+   list cannot be allocated (with or without the repair of the copy constructor); and a copy constructor whose insert
+   throws releases the nodes but no value block of the entries copied so far (with or without the repair of doCreateEntry) *)
 Theorem map_alloc_failure_safe_refuted :
-  r_outstanding (map_case (Some 3) 3 3 [MInsert false 1; MInsert false 2]) = 1 /\
-  r_outstanding (map_case (Some 4) 3 3 [MInsert false 1; MInsert false 2]) = 1.
-Proof. split; vm_compute; reflexivity. Qed.
+  r_outstanding (map_case_g false false (Some 3) 3 3 [MInsert false 1; MInsert false 2]) = 1 /\
+  r_outstanding (map_case_g false true (Some 4) 3 3 [MInsert false 1; MInsert false 2]) = 1 /\
+  r_outstanding (map_case_g true false (Some 17) 3 3 [MInsert true 1; MInsert true 2; MInsert true 3; MAssign false]) = 1 /\
+  r_outstanding (map_case_g false false (Some 23) 3 3 [MInsert true 1; MInsert true 2; MInsert true 3; MAssign false]) = 3.
+Proof. split; [|split; [|split]]; vm_compute; reflexivity. Qed.
 Print Assumptions map_alloc_failure_safe_refuted.
 
-(* regression of K23: a refused bucket push_back now leaves the map as it was (no live entry outside the buckets,
+(* the statement at the shapes found in this tree (GenMem.map_entry_guarded, GenMem.map_copy_guarded): destructors never
+   allocate, and - when the translator found both repaired shapes - the full guarantee *)
+Theorem map_alloc_failure_safe_this_tree : map_safe_at map_entry_guarded map_copy_guarded.
+Proof. exact (map_safe_any map_entry_guarded map_copy_guarded). Qed.
+Print Assumptions map_alloc_failure_safe_this_tree.
+
+(* regression of K23: a refused bucket push_back leaves the map as it was (no live entry outside the buckets,
    m_size = number of live entries, the entry is back on the free list, erased), and nothing is lost *)
 Example map_bucket_refusal_repaired :
-  (let '(h, w, ok) := mstep (MInsert false 1) (map0 0 3 3, map0 1 3 3) (heap0 (Some 5)) in
+  (let '(h, w, ok) := mstep map_entry_guarded map_copy_guarded (MInsert false 1) (map0 0 3 3, map0 1 3 3) (heap0 (Some 5)) in
    ok = false /\ mentries (fst w) = [] /\ msize (fst w) = 0 /\ map eerased (mfrees (fst w)) = [true]) /\
   r_outstanding (map_case (Some 5) 3 3 [MInsert false 1; MInsert false 2]) = 0.
 Proof. split; vm_compute; auto. Qed.
